@@ -190,8 +190,8 @@ pub fn gen_case(seed: u64, k: u64, profile: Profile) -> Case {
                 if global {
                     row.af = String::new();
                 }
-                let ratios_fwd = ["2-for-1", "4-for-1", "5-for-1", "10-for-1", "5-for-2", "5-for-4"];
-                let ratios_rev = ["1-for-2", "1-for-4", "1-for-5", "2-for-5", "1.0-for-2.0", "1.0-for-4.0", "0.5-for-1"];
+                let ratios_fwd = ["2-for-1", "4-for-1", "5-for-1", "10-for-1", "5-for-2", "5-for-4", "7-for-3"];
+                let ratios_rev = ["1-for-2", "1-for-4", "1-for-5", "2-for-5", "1.0-for-2.0", "1.0-for-4.0", "0.5-for-1", "1.0-for-3.0", "2.0-for-3.0"];
                 let fwd = rng.gen_bool(0.6);
                 row.split = if fwd { ratios_fwd.choose(&mut rng).unwrap().to_string() } else { ratios_rev.choose(&mut rng).unwrap().to_string() };
                 let (post, pre) = split_pair(&row.split);
